@@ -55,40 +55,51 @@ def run(ck):
     ck.require(n >= 12, "only %d bounded-buffer flows found" % n)
 
     # ---------------- R2 ----------------
+    def at_least_edges(fn_, ref_pred):
+        """[(block, k, n)]: edges on which an expression whose references satisfy ref_pred is known to be >= n (n an integer constant),
+        whichever way the test is written (`x < 2` not taken, `x >= 2` taken, `x > 1` taken, ...)"""
+        out_ = []
+        for b in fn_.blocks.values():
+            t = b.term
+            if not t or len(b.succs) != 2 or not isinstance(t.get("rconst"), int) or isinstance(t.get("rconst"), bool):
+                continue
+            if not ref_pred([strip_tmpl(r) for r in (t.get("leafrefs") or t.get("refs") or [])]):
+                continue
+            for k in (0, 1):
+                r_ = lib.rel_on_edge(t, k)
+                if r_ is None or b.succs[k] is None:
+                    continue
+                # constant on the right (the extractor reports it as rconst); a constant on the left would have swapped the relation
+                if r_[1] == ">=":
+                    out_.append((b.id, k, t["rconst"]))
+                elif r_[1] == ">":
+                    out_.append((b.id, k, t["rconst"] + 1))
+        return out_
+
     for f in prog.find("Pistache::StreamBuf::snext", 1):
         derefs = [e for e in f.events("deref")]
         plus = [e for e in derefs if "+ 1" in ((e.get("ptr") or {}).get("t") or "") or "+1" in ((e.get("ptr") or {}).get("t") or "")]
+        # the same look-ahead written as a subscript: gptr()[1]
+        plus += [e for e in f.events("subscript") if (e.get("idx") or {}).get("const") == 1 or ((e.get("idx") or {}).get("t") or "").strip() == "1"]
         ck.require(plus, "look-ahead dereference not found in StreamBuf::snext")
+        two = [(bid, k) for bid, k, n_ in at_least_edges(f, lambda refs: ("c:std::basic_streambuf::egptr" in refs and "c:std::basic_streambuf::gptr" in refs) or
+                                                         "c:std::basic_streambuf::in_avail" in refs) if n_ >= 2]
         for e in plus:
-            ok = False
-            detail = "no dominating bail-out establishing two available bytes"
-            for b in f.blocks.values():
-                t = b.term
-                if not t or t.get("k") != "if":
-                    continue
-                refs = [strip_tmpl(r) for r in (t.get("refs") or [])]
-                if "c:std::basic_streambuf::egptr" in refs and "c:std::basic_streambuf::gptr" in refs and t.get("cmp") in ("<", "<=") and isinstance(t.get("rconst"), int):
-                    need = t["rconst"] if t["cmp"] == "<" else t["rconst"] + 1
-                    if need >= 2 and cfg.edge_dominates(f, b.id, 1, e):
-                        ok = True
-                        detail = "`%s` returns eof first" % t.get("cond")
-                if "c:std::basic_streambuf::in_avail" in refs and t.get("cmp") in ("<", "<=") and isinstance(t.get("rconst"), int):
-                    need = t["rconst"] if t["cmp"] == "<" else t["rconst"] + 1
-                    if need >= 2 and cfg.edge_dominates(f, b.id, 1, e):
-                        ok = True
-                        detail = "`%s` returns eof first" % t.get("cond")
-            ck.ob("C03-R2", "StreamBuf::snext/two-bytes-before-lookahead", ok, e.loc, f, detail)
+            ok = any(cfg.edge_dominates(f, bid, k, e) for bid, k in two)
+            ck.ob("C03-R2", "StreamBuf::snext/two-bytes-before-lookahead", ok, e.loc, f,
+                  "reached only when two bytes are available (egptr() - gptr() >= 2)" if ok else "no dominating bail-out establishing two available bytes")
     nx = lib.single(prog, CUR + "next")
     sn = [e for e in nx.calls(lambda e: e.base_callee() == "Pistache::StreamBuf::snext")]
-    tests = [b for b in nx.blocks.values() if b.term and b.term.get("k") == "if" and "in_avail" in (b.term.get("cond") or "") and b.term.get("cmp") in ("<", "<=")]
-    ok = bool(sn) and bool(tests) and all(cfg.edge_dominates(nx, tests[0].id, 1, e) for e in sn)
+    one = [(bid, k) for bid, k, n_ in at_least_edges(nx, lambda refs: any(r.endswith("::in_avail") for r in refs)) if n_ >= 1]
+    ok = bool(sn) and bool(one) and all(any(cfg.edge_dominates(nx, bid, k, e) for bid, k in one) for e in sn)
     ck.ob("C03-R2", "StreamCursor::next/guarded", ok, nx.loc, nx, "snext() only when in_avail() >= 1")
 
     # ---------------- R3 ----------------
     for f in prog.find("Pistache::ArrayStreamBuf::feed", 1):
         grow = [e for e in f.events("call") if (e.get("callee") or "") in ("std::back_inserter", "std::inserter") and strip_tmpl((e["args"][0].get("f") or "")).endswith("ArrayStreamBuf::bytes")]
         tests = [b for b in f.blocks.values() if b.term and b.term.get("k") == "if" and any(strip_tmpl(r).endswith("ArrayStreamBuf::maxSize") for r in (b.term.get("refs") or []))]
-        ok = bool(grow) and bool(tests) and all(any(cfg.edge_dominates(f, b.id, 1, g) for b in tests) for g in grow)
+        # growth lies on one side of the limit test only (which side is the fitting one is decided by C14-R1)
+        ok = bool(grow) and bool(tests) and all(any(cfg.edge_dominates(f, b.id, k_, g) for b in tests for k_ in (0, 1) if b.succs[k_] is not None) for g in grow)
         ck.ob("C03-R3", "ArrayStreamBuf::feed/limit-before-growth", ok, f.loc, f, "growth only past the maxSize check (details: C14-R1)")
     BODY = H + "Message::body_"
     nres = 0
@@ -262,10 +273,12 @@ def run(ck):
     ck.require(len(mus) == 1, "the match_until overload that scans (has a loop): %d found" % len(mus))
     mu = mus[0]
     rts = [e for e in mu.events("return") if e.get("const") is True]
-    guards = [bl for bl in mu.blocks.values() if bl.term and bl.term.get("k") == "if" and ((bl.term.get("core") or {}).get("t") or "").startswith("find(")]
     cur_decl = {d["var"] for d in mu.events("decl") if d.get("icall") == CUR + "current"}
-    ok = bool(rts) and bool(guards) and all(any(cfg.edge_dominates(mu, g.id, 1 if g.term.get("neg") else 0, e) for g in guards) for e in rts) and \
-        all(any(("v:" + v) in (g.term.get("refs") or []) for v in cur_decl) for g in guards)
+    # the branch that asks the local membership predicate (a lambda over the set of characters) about the byte under the cursor
+    guards = [bl for bl in mu.blocks.values() if bl.term and bl.term.get("k") == "if" and not bl.term.get("cmp") and
+              any(r.startswith("c:lambda@") for r in (bl.term.get("leafrefs") or bl.term.get("refs") or [])) and
+              (("c:" + CUR + "current") in (bl.term.get("refs") or []) or any(("v:" + v) in (bl.term.get("refs") or []) for v in cur_decl))]
+    ok = bool(rts) and bool(guards) and all(any(cfg.edge_dominates(mu, g.id, 1 if g.term.get("neg") else 0, e) for g in guards) for e in rts)
     ck.ob("C03-R8", "match_until/post-condition", ok, mu.loc, mu, "`return true` only under find(<byte under the cursor>): on success the cursor stands on one of the characters asked for")
     sp = lib.StrictProgress(prog, CUR, READERS)
     for f in prog.funcs.values():
